@@ -124,8 +124,8 @@ ValueAt(t, p) ==
 View(t) == [p \in LeafPaths(t) |-> ValueAt(t, p)]
 
 (* no leaf of one view lies on or below/above a leaf of the other with a different kind of node *)
-IsPrefix(p, q) == Len(p) <= Len(q) /\ SubSeq(q, 1, Len(p)) = p
-PrefixFree(P) == \A p \in P, q \in P : IsPrefix(p, q) => p = q
+PathPrefix(p, q) == Len(p) <= Len(q) /\ SubSeq(q, 1, Len(p)) = p
+PrefixFree(P) == \A p \in P, q \in P : PathPrefix(p, q) => p = q
 Compatible(a, b) == PrefixFree(DOMAIN a \cup DOMAIN b)
 
 (* leaf-wise overlay of views: b on top of a *)
@@ -206,6 +206,39 @@ ExpectedView(leaves, dv, fv, ev) ==
       F == ViewOf(leaves, FileIdx(leaves), fv)
       E == ViewOf(leaves, EnvIdx(leaves), ev)
   IN OverlayView(OverlayView(D, F), E)
+
+(* ----------------------------- shape classes ---------------------------- *)
+(* The shapes of configuration found in heimdall's Configuration structure, *)
+(* over abstract keys ("b_c", "d_e_f", "l_s" ... contain underscores).      *)
+(* They are part of the design run, and the abstract cases executed on the  *)
+(* real loader are enumerated over them (ConfigMergeGen); the driver binds  *)
+(* each leaf to a real configuration path of the same list structure.       *)
+ShapeNames == <<"scalars", "string-list", "two-lists", "list-of-struct", "list-of-struct-nested",
+                "list-in-anymap", "list-in-list", "free-object-lists">>
+
+ShapeClass(name) ==
+  CASE name = "scalars" ->                \* log.level, serve.decision.timeout.read, secrets_reload_enabled ...
+         << <<"a">>, <<"b_c">>, <<"m", "a">>, <<"m", "b_c">>, <<"m", "n", "a">>, <<"m", "n", "d_e_f">> >>
+    [] name = "string-list" ->            \* serve.decision.trusted_proxies[i] + siblings
+         << <<"m", "n", "l_s", "0">>, <<"m", "n", "l_s", "1">>, <<"m", "n", "l_s", "2">>, <<"m", "n", "a">>, <<"b_c">> >>
+    [] name = "two-lists" ->              \* serve.decision.trusted_proxies / serve.proxy.trusted_proxies
+         << <<"m", "n", "l_s", "0">>, <<"m", "n", "l_s", "1">>, <<"m", "o", "l_s", "0">>, <<"m", "o", "l_s", "1">>,
+            <<"m", "n", "a">>, <<"m", "o", "a">> >>
+    [] name = "list-of-struct" ->         \* mechanisms.authorizers[i].{id,type}
+         << <<"m", "l", "0", "a">>, <<"m", "l", "0", "b">>, <<"m", "l", "1", "a">>, <<"m", "l", "1", "b">>,
+            <<"m", "l", "2", "a">>, <<"b_c">> >>
+    [] name = "list-of-struct-nested" ->  \* mechanisms.authenticators[i].{id,type,config.*}: maps inside lists
+         << <<"m", "l", "0", "a">>, <<"m", "l", "0", "c", "x">>, <<"m", "l", "0", "c", "y_z">>,
+            <<"m", "l", "1", "a">>, <<"m", "l", "1", "b">>, <<"m", "l", "1", "c", "x">> >>
+    [] name = "list-in-anymap" ->         \* providers.http_endpoint.{watch_interval, endpoints[i].{url,method,headers.x}}
+         << <<"p", "h_e", "w_i">>, <<"p", "h_e", "e", "0", "u">>, <<"p", "h_e", "e", "0", "m">>,
+            <<"p", "h_e", "e", "0", "h", "k">>, <<"p", "h_e", "e", "1", "u">>, <<"p", "h_e", "e", "1", "r", "g_u">> >>
+    [] name = "list-in-list" ->           \* mechanisms.authenticators[i].config.assertions.audience[j]
+         << <<"m", "l", "0", "a">>, <<"m", "l", "0", "c", "s", "0">>, <<"m", "l", "0", "c", "s", "1">>,
+            <<"m", "l", "1", "a">>, <<"m", "l", "1", "c", "s", "0">>, <<"b_c">> >>
+    [] name = "free-object-lists" ->      \* default_rule.{backtracking_enabled, execute[i].*, on_error[i].*}
+         << <<"d_r", "b_e">>, <<"d_r", "x", "0", "a">>, <<"d_r", "x", "0", "c", "s">>, <<"d_r", "x", "1", "z">>,
+            <<"d_r", "x", "2", "f">>, <<"d_r", "o_e", "0", "e_h">> >>
 
 (* ------------------------- usability (second half) ---------------------- *)
 (* An item of the universe (a mechanism type, an endpoint authentication    *)
